@@ -25,6 +25,11 @@ theorem poolAddr_head (n : Nat) : (poolAddr n).toList.head? = some 'P' := by
   unfold poolAddr
   simp [String.toList_append]
 
+theorem not_pool_of_head {a : Addr} (h : a.toList.head? ≠ some 'P') (n : Nat) : a ≠ poolAddr n := by
+  intro e; rw [e] at h; exact h (poolAddr_head n)
+
+theorem mod_ne_pool (n : Nat) : modAddr ≠ poolAddr n := not_pool_of_head (by decide) n
+
 /-! ### bank primitives, net form -/
 
 theorem supplyOf_setBal (b : Bank) (a d v d') : (b.setBal a d v).supplyOf d' = b.supplyOf d' := rfl
@@ -434,12 +439,12 @@ theorem feeMoves_net (s : State) (sender : Addr) (ht : s.params.tax ≤ D) :
     simp only [feeMoves, feeSpec, netSup, Mv.sup]
     omega
 
-def addMoves (s : State) (sender : Addr) (n : Nat) (cp : Denom) (dS t m : Nat) : List Mv :=
-  [.xfer sender (poolAddr n) s.std dS, .xfer sender (poolAddr n) cp t, .mint sender (lptDenom n) m]
+def addMoves (std : Denom) (sender : Addr) (n : Nat) (cp : Denom) (dS t m : Nat) : List Mv :=
+  [.xfer sender (poolAddr n) std dS, .xfer sender (poolAddr n) cp t, .mint sender (lptDenom n) m]
 
 theorem addLiq_ok {s s' : State} {sender : Addr} {n : Nat} {cp : Denom} {dS t m : Nat} {resp : CoinList}
     (h : addLiq s sender n cp dS t m = .ok (s', resp)) :
-    Ledger s.bank s'.bank (addMoves s sender n cp dS t m) ∧ SameCfg s s' ∧ resp = [(lptDenom n, m)] := by
+    Ledger s.bank s'.bank (addMoves s.std sender n cp dS t m) ∧ SameCfg s s' ∧ resp = [(lptDenom n, m)] := by
   unfold addLiq at h
   split at h
   · cases h
@@ -554,12 +559,12 @@ theorem stepAdd1_ok {s s' : State} {sender : Addr} {cp tokD : Denom} {a minL : N
                   · exact Or.inr e2
                   · exact absurd ⟨e1, e2⟩ hden
 
-def removeMoves (s : State) (sender : Addr) (n : Nat) (cp : Denom) (w x y : Nat) : List Mv :=
-  [.burn sender (lptDenom n) w, .xfer (poolAddr n) sender s.std x, .xfer (poolAddr n) sender cp y]
+def removeMoves (std : Denom) (sender : Addr) (n : Nat) (cp : Denom) (w x y : Nat) : List Mv :=
+  [.burn sender (lptDenom n) w, .xfer (poolAddr n) sender std x, .xfer (poolAddr n) sender cp y]
 
 theorem removeLiq_ok {s s' : State} {sender : Addr} {n : Nat} {cp : Denom} {w x y : Nat} {resp : CoinList}
     (h : removeLiq s sender n cp w x y = .ok (s', resp)) :
-    Ledger s.bank s'.bank (removeMoves s sender n cp w x y) ∧ SameCfg s s' ∧ resp = coins [(s.std, x), (cp, y)] := by
+    Ledger s.bank s'.bank (removeMoves s.std sender n cp w x y) ∧ SameCfg s s' ∧ resp = coins [(s.std, x), (cp, y)] := by
   unfold removeLiq at h
   split at h
   · cases h
@@ -573,6 +578,20 @@ theorem removeLiq_ok {s s' : State} {sender : Addr} {n : Nat} {cp : Denom} {w x 
         cases h
         exact ⟨Ledger.trans (burnCk_ledger h1) (Ledger.trans (send_ledger h2) (send_ledger h3)),
           ⟨rfl, rfl, rfl, rfl, rfl, rfl⟩, rfl⟩
+
+theorem findByLpt_some {m : AMap Denom Nat} {d cp : Denom} {n : Nat} (h : findByLpt m d = some (cp, n)) :
+    lptDenom n = d ∧ (cp, n) ∈ m := by
+  induction m with
+  | nil => simp [findByLpt] at h
+  | cons hd t ih =>
+    obtain ⟨c, k⟩ := hd
+    simp only [findByLpt] at h
+    split at h
+    · rename_i he
+      cases h
+      exact ⟨he, List.mem_cons_self⟩
+    · obtain ⟨h1, h2⟩ := ih h
+      exact ⟨h1, List.mem_cons_of_mem _ h2⟩
 
 theorem stepRemove_ok {s s' : State} {sender : Addr} {lptD : Denom} {w minStd minTok : Nat} {dl : Int} {resp : CoinList}
     (h : stepRemove s sender lptD w minStd minTok dl = .ok (s', resp)) :
@@ -609,16 +628,27 @@ theorem stepRemove_ok {s s' : State} {sender : Addr} {lptD : Denom} {w minStd mi
 def rem1Moves (sender : Addr) (n : Nat) (minD : Denom) (w out : Nat) : List Mv :=
   [.burn sender (lptDenom n) w, .xfer (poolAddr n) sender minD out]
 
+theorem rem1Liq_ok {s s' : State} {sender : Addr} {n : Nat} {minD : Denom} {w out : Nat} {resp : CoinList}
+    (h : rem1Liq s sender n minD w out = .ok (s', resp)) :
+    Ledger s.bank s'.bank (rem1Moves sender n minD w out) ∧ SameCfg s s' ∧ resp = coins [(minD, out)] := by
+  unfold rem1Liq at h
+  split at h
+  · cases h
+  · rename_i b1 h1
+    split at h
+    · cases h
+    · rename_i b2 h2
+      cases h
+      exact ⟨Ledger.trans (burnCk_ledger h1) (send_ledger h2), ⟨rfl, rfl, rfl, rfl, rfl, rfl⟩, rfl⟩
+
 theorem stepRem1_ok {s s' : State} {sender : Addr} {cp minD : Denom} {minA w : Nat} {dl : Int} {resp : CoinList}
     (h : stepRem1 s sender cp minD minA w dl = .ok (s', resp)) :
     expired s.now dl = false ∧ ∃ n, AMap.get? s.pools cp = some n ∧ (minD = cp ∨ minD = s.std) ∧
       w < shares s n ∧
       rem1Fits (s.bank.balOf (poolAddr n) minD) (shares s n) w (D - s.params.ufee) = true ∧
       minA ≤ rem1Out (s.bank.balOf (poolAddr n) minD) (shares s n) w (D - s.params.ufee) ∧
-      Ledger s.bank s'.bank (rem1Moves sender n minD w
-        (rem1Out (s.bank.balOf (poolAddr n) minD) (shares s n) w (D - s.params.ufee))) ∧
-      SameCfg s s' ∧
-      resp = coins [(minD, rem1Out (s.bank.balOf (poolAddr n) minD) (shares s n) w (D - s.params.ufee))] := by
+      rem1Liq s sender n minD w (rem1Out (s.bank.balOf (poolAddr n) minD) (shares s n) w (D - s.params.ufee))
+        = .ok (s', resp) := by
   unfold stepRem1 at h
   split at h
   · cases h
@@ -644,20 +674,12 @@ theorem stepRem1_ok {s s' : State} {sender : Addr} {cp minD : Denom} {minA w : N
                 split at h
                 · cases h
                 · rename_i hmin
-                  split at h
-                  · cases h
-                  · rename_i b1 h1
-                    split at h
-                    · cases h
-                    · rename_i b2 h2
-                      cases h
-                      refine ⟨n, hsome, ?_, by omega, by simpa using hfits, by omega,
-                        Ledger.trans (burnCk_ledger h1) (send_ledger h2), ⟨rfl, rfl, rfl, rfl, rfl, rfl⟩, rfl⟩
-                      by_cases e1 : minD = cp
-                      · exact Or.inl e1
-                      · by_cases e2 : minD = s.std
-                        · exact Or.inr e2
-                        · exact absurd ⟨e1, e2⟩ hden
+                  refine ⟨n, hsome, ?_, by omega, by simpa using hfits, by omega, h⟩
+                  by_cases e1 : minD = cp
+                  · exact Or.inl e1
+                  · by_cases e2 : minD = s.std
+                    · exact Or.inr e2
+                    · exact absurd ⟨e1, e2⟩ hden
 
 theorem stepDonate_ok {s s' : State} {src dst : Addr} {d : Denom} {a : Nat} {resp : CoinList}
     (h : stepDonate s src dst d a = .ok (s', resp)) :
@@ -670,5 +692,115 @@ theorem stepDonate_ok {s s' : State} {src dst : Addr} {d : Denom} {a : Nat} {res
     · rename_i b hb
       cases h
       exact ⟨send_ledger hb, ⟨rfl, rfl, rfl, rfl, rfl, rfl⟩⟩
+
+
+/-! ### `step`, message by message -/
+
+theorem step_swap_ok {s s' : State} {sender rcpt : Addr} {inD outD : Denom} {inA outA : Int} {buy : Bool} {dl : Int}
+    {resp : CoinList} (h : step s (.swap sender rcpt inD inA outD outA buy dl) = .ok (s', resp)) :
+    vb (.swap sender rcpt inD inA outD outA buy dl) = none ∧
+    stepSwap s sender rcpt inD inA.toNat outD outA.toNat buy dl = .ok s' ∧ resp = [] := by
+  unfold step at h
+  cases hv : vb (.swap sender rcpt inD inA outD outA buy dl) with
+  | some e => rw [hv] at h; cases h
+  | none =>
+    rw [hv] at h
+    simp only at h
+    cases hs : stepSwap s sender rcpt inD inA.toNat outD outA.toNat buy dl with
+    | error e => rw [hs] at h; cases h
+    | ok s2 => rw [hs] at h; cases h; exact ⟨rfl, rfl, rfl⟩
+
+theorem step_add_ok {s : State} {sender : Addr} {cp : Denom} {maxA dS minL dl : Int} {r : State × CoinList}
+    (h : step s (.add sender cp maxA dS minL dl) = .ok r) :
+    vb (.add sender cp maxA dS minL dl) = none ∧ stepAdd s sender cp maxA.toNat dS.toNat minL.toNat dl = .ok r := by
+  unfold step at h
+  cases hv : vb (.add sender cp maxA dS minL dl) with
+  | some e => rw [hv] at h; cases h
+  | none => rw [hv] at h; exact ⟨rfl, h⟩
+
+theorem step_remove_ok {s : State} {sender : Addr} {lptD : Denom} {w minStd minTok dl : Int} {r : State × CoinList}
+    (h : step s (.remove sender lptD w minStd minTok dl) = .ok r) :
+    vb (.remove sender lptD w minStd minTok dl) = none ∧
+    stepRemove s sender lptD w.toNat minStd.toNat minTok.toNat dl = .ok r := by
+  unfold step at h
+  cases hv : vb (.remove sender lptD w minStd minTok dl) with
+  | some e => rw [hv] at h; cases h
+  | none => rw [hv] at h; exact ⟨rfl, h⟩
+
+theorem step_add1_ok {s : State} {sender : Addr} {cp tokD : Denom} {a minL dl : Int} {r : State × CoinList}
+    (h : step s (.add1 sender cp tokD a minL dl) = .ok r) :
+    vb (.add1 sender cp tokD a minL dl) = none ∧ stepAdd1 s sender cp tokD a.toNat minL.toNat dl = .ok r := by
+  unfold step at h
+  cases hv : vb (.add1 sender cp tokD a minL dl) with
+  | some e => rw [hv] at h; cases h
+  | none => rw [hv] at h; exact ⟨rfl, h⟩
+
+theorem step_rem1_ok {s : State} {sender : Addr} {cp minD : Denom} {minA w dl : Int} {r : State × CoinList}
+    (h : step s (.rem1 sender cp minD minA w dl) = .ok r) :
+    vb (.rem1 sender cp minD minA w dl) = none ∧ stepRem1 s sender cp minD minA.toNat w.toNat dl = .ok r := by
+  unfold step at h
+  cases hv : vb (.rem1 sender cp minD minA w dl) with
+  | some e => rw [hv] at h; cases h
+  | none => rw [hv] at h; exact ⟨rfl, h⟩
+
+theorem step_donate_ok {s : State} {src dst : Addr} {d : Denom} {a : Nat} {r : State × CoinList}
+    (h : step s (.donate src dst d a) = .ok r) : stepDonate s src dst d a = .ok r := by
+  unfold step at h
+  simpa [vb] using h
+
+theorem step_params_ok {s : State} {auth : Addr} {fee tax ufee pcfA : Int} {pcfD : Denom} {r : State × CoinList}
+    (h : step s (.setParams auth fee tax ufee pcfD pcfA) = .ok r) :
+    vb (.setParams auth fee tax ufee pcfD pcfA) = none ∧
+    stepParams s auth { fee := fee.toNat, tax := tax.toNat, ufee := ufee.toNat, pcfDenom := pcfD, pcfAmt := pcfA.toNat } = .ok r := by
+  unfold step at h
+  cases hv : vb (.setParams auth fee tax ufee pcfD pcfA) with
+  | some e => rw [hv] at h; cases h
+  | none => rw [hv] at h; exact ⟨rfl, h⟩
+
+theorem step_block_ok {s : State} {t : Nat} {r : State × CoinList} (h : step s (.block t) = .ok r) :
+    r = ({ s with now := t }, []) := by
+  unfold step at h
+  simp [vb] at h
+  exact h.symm
+
+/-! ### ValidateBasic facts -/
+
+theorem firstErr_none {l : List (Option String)} (h : firstErr l = none) : ∀ x ∈ l, x = none := by
+  induction l with
+  | nil => intro x hx; cases hx
+  | cons a t ih =>
+    cases a with
+    | some e => simp [firstErr] at h
+    | none =>
+      simp only [firstErr] at h
+      intro x hx
+      cases hx with
+      | head => rfl
+      | tail _ hx => exact ih h x hx
+
+theorem vbSide_none {a : Addr} {d : Denom} {amt : Int} (h : vbSide a d amt = none) : 0 < amt := by
+  unfold vbSide at h
+  split at h
+  · cases h
+  · rename_i h1
+    simp at h1
+    exact h1.2
+
+theorem vbToken_none {d : Denom} {amt : Int} (h : vbToken d amt = none) : 0 < amt := by
+  unfold vbToken at h
+  split at h
+  · cases h
+  · rename_i h1
+    simp at h1
+    exact h1.2
+
+/-- deadline respected -/
+theorem inTime_of_not_expired {now : Nat} {dl : Int} (h : expired now dl = false) : InTime now dl := by
+  unfold expired at h
+  unfold InTime
+  simp only [Bool.or_eq_false_iff, decide_eq_false_iff_not, Bool.and_eq_false_iff] at h
+  obtain ⟨h1, h2⟩ := h
+  split at h1 <;> rename_i hw <;> simp only [hw, if_true, if_false] at h2 <;> omega
+
 
 end Irismod.Proofs.Coinswap
